@@ -1112,13 +1112,22 @@ func (a *Agent) addRemotePassiveTCPCandidate(remoteCandidate Candidate) {
 			continue
 		}
 
+		// As for gathered host candidates, the mDNS name hides the interface address.
+		address := localIPs[i].addr.String()
+		if a.mDNSMode == MulticastDNSModeQueryAndGather {
+			address = a.mDNSName
+		}
+
 		localCandidate, err := NewCandidateHost(&CandidateHostConfig{
 			Network:   remoteCandidate.NetworkType().String(),
-			Address:   localIPs[i].addr.String(),
+			Address:   address,
 			Port:      tcpAddr.Port,
 			Component: ComponentRTP,
 			TCPType:   TCPTypeActive,
 		})
+		if err == nil && a.mDNSMode == MulticastDNSModeQueryAndGather {
+			err = localCandidate.setIPAddr(localIPs[i].addr)
+		}
 		if err != nil {
 			closeConnAndLog(conn, a.log, "Failed to create Active ICE-TCP Candidate: %v", err)
 
@@ -1303,8 +1312,10 @@ func (a *Agent) addRemoteCandidate(cand Candidate) bool { //nolint:cyclop
 	set = a.replaceRedundantPeerReflexiveCandidates(set, cand)
 
 	acceptRemotePassiveTCPCandidate := false
-	// Assert that TCP4 or TCP6 is a enabled NetworkType locally
-	if !a.disableActiveTCP && cand.TCPType() == TCPTypePassive {
+	// Assert that TCP4 or TCP6 is a enabled NetworkType locally. The active candidates that
+	// dial the remote one are local host candidates: none without the host candidate type.
+	if !a.disableActiveTCP && cand.TCPType() == TCPTypePassive &&
+		containsCandidateType(CandidateTypeHost, a.candidateTypes) {
 		if slices.Contains(configuredNetworkTypes(a.networkTypes), cand.NetworkType()) {
 			acceptRemotePassiveTCPCandidate = true
 		}
